@@ -591,6 +591,18 @@ Example C14_reply_may_contain_requester :
   map n_key (reply local s requester 20) = [requester].
 Proof. vm_compute. reflexivity. Qed.
 
+(* scope of the ground truth (not a theorem about the code's merit): a connection established to
+   a peer the table does not hold leaves no trace, so a peer that connects first and is learned
+   afterwards from a reply (no PeerContext) is stored NotConnected and is not a ghost member *)
+Example C14_connected_before_known_is_not_protected :
+  let local := [false; false; false] in
+  let p := [true; false; true] in
+  let h := [KEstablished p false false; KUpdate [(p, true)]] in
+  map (fun n => (n_key n, n_conn n)) (nth 2 (k_table (kreach local 20 h)) []) =
+    [([], NotConnected); (p, NotConnected)] /\
+  kghost local 20 h = [].
+Proof. vm_compute. split; reflexivity. Qed.
+
 (* non-vacuity: 3-bit keys, K = 2; bucket 2 overflows, a NotConnected peer is replaced, the
    Connected ones stay, and closest returns the addressed peers in distance order *)
 Example C14_nonvacuous :
